@@ -100,6 +100,47 @@ def r1_signs(ctx):
                     if parity.get(d["l"]) != val:
                         parity[d["l"]] = val
                         changed = True
+        # negation written as a call (`checked_neg().expect(..)`, `wrapping_neg()`, `Neg::neg`) and the unwrapping of its
+        # Option flip / keep the parity like the operator does
+        changed = True
+        while changed:
+            changed = False
+            for b in sorted(cfg.reach):
+                tt = f["blocks"][b]["term"]
+                if tt["k"] != "call" or not tt.get("dest") or tt["dest"]["p"] or ndefs.get(tt["dest"]["l"]) != 1 or not tt["args"]:
+                    continue
+                ck = (tt["callee"].get("key") or "")
+                short_ = ck.rsplit("::", 1)[-1]
+                a = tt["args"][0]
+                src = None
+                if is_child_value(a):
+                    src = 1
+                elif a.get("k") in ("copy", "move") and not a["pl"]["p"] and a["pl"]["l"] in parity:
+                    src = parity[a["pl"]["l"]]
+                if src is None:
+                    continue
+                if short_ in ("checked_neg", "wrapping_neg", "saturating_neg", "overflowing_neg", "neg") and (ck.startswith("core::num::") or "Neg" in ck):
+                    val = -src
+                elif short_ in ("unwrap", "expect", "unwrap_or", "unwrap_or_default", "unwrap_unchecked") and ck.startswith(("core::option::Option", "core::result::Result")):
+                    val = src
+                else:
+                    continue
+                if parity.get(tt["dest"]["l"]) != val:
+                    parity[tt["dest"]["l"]] = val
+                    changed = True
+            # plain copies of such results
+            for b in sorted(cfg.reach):
+                for s_ in f["blocks"][b]["stmts"]:
+                    rv, d = s_["rv"], s_["dst"]
+                    if d is None or d["p"] or ndefs.get(d["l"]) != 1 or rv["op"] not in ("use", "un") or (rv["op"] == "un" and rv["uop"] != "Neg"):
+                        continue
+                    a = rv["a"][0]
+                    if a.get("k") in ("copy", "move") and not a["pl"]["p"] and a["pl"]["l"] in parity:
+                        val = -parity[a["pl"]["l"]] if rv["op"] == "un" else parity[a["pl"]["l"]]
+                        if parity.get(d["l"]) != val:
+                            parity[d["l"]] = val
+                            changed = True
+        parity_calls = {"checked_neg", "wrapping_neg", "saturating_neg", "overflowing_neg", "neg", "unwrap", "expect", "unwrap_or", "unwrap_or_default", "unwrap_unchecked"}
         reads = negs = 0
         wrong = []
 
@@ -128,6 +169,8 @@ def r1_signs(ctx):
                 for a in rv.get("a", []):
                     sink(a, s["line"])
             tt = f["blocks"][b]["term"]
+            if tt["k"] == "call" and (tt["callee"].get("key") or "").rsplit("::", 1)[-1] in parity_calls and tt.get("dest") and not tt["dest"]["p"] and tt["dest"]["l"] in parity:
+                continue        # a negation / unwrapping step of the chain, not a use
             for a in tt.get("args", []) if tt["k"] == "call" else []:
                 sink(a, tt["line"])
             if tt["k"] == "switch":
@@ -614,13 +657,21 @@ def search_control_inventory(f, name):
             if x in body and rec not in r and hdr in r:
                 items.append(("skip", "%s|skip|if [%s]" % (name, ",".join(sorted(_atoms(d)))), t.get("line", 0), governing(b) | _atoms(d)))
     # breaks: edges leaving the loop body from a block other than the header, to a block that is not an exit path only
+    can_return = {b for b in cfg.reach if f["blocks"][b]["term"]["k"] == "return"}
+    grew = True
+    while grew:
+        grew = False
+        for b in cfg.reach:
+            if b not in can_return and not f["blocks"][b]["cleanup"] and any(y in can_return for y in cfg.succ[b]):
+                can_return.add(b)
+                grew = True
     for b in sorted(body):
         if b == hdr:
             continue
         t = f["blocks"][b]["term"]
         for x in cfg.succ[b]:
-            if x in body or f["blocks"][x]["cleanup"] or b == ns:
-                continue
+            if x in body or f["blocks"][x]["cleanup"] or b == ns or x not in can_return:
+                continue        # (an edge into a failed assertion / unreachable!() leaves the program, not the loop)
             if t["k"] == "switch":
                 d = ex.operand(t["discr"])
                 items.append(("leave", "%s|leave-loop|if [%s]" % (name, ",".join(sorted(_atoms(d)))), t.get("line", 0), governing(b) | _atoms(d)))
